@@ -83,15 +83,28 @@ extern "C" void vp_thread1() {
   check_invariant(g, held, 300);
 #endif
   for (unsigned s = 0; s < NOPS; ++s) {
+#ifdef FIXOPS
+    // deterministic instance (growth of the dynamic pool): operations given by -DFIXOPS="{op,a,c},..." style table
+    static const unsigned fix[][3] = FIXOPS;
+    unsigned op = fix[s][0];
+#else
     unsigned op = (unsigned)vp_range(10 + s, 0, 5);
-#ifdef SYM_INDEX
+#endif
+#if defined(FIXOPS)
+    unsigned a = fix[s][1];
+    unsigned b = (s + 2) % NG;
+#elif defined(SYM_INDEX)
     unsigned a = (unsigned)vp_range(30 + s, 0, NG - 1);
     unsigned b = (unsigned)vp_range(50 + s, 0, NG - 1);
 #else
     unsigned a = (s * 2 + 1) % NG;    // fixed rotation keeps the guard array accesses concrete; the operation is symbolic
     unsigned b = (s + 2) % NG;
 #endif
+#ifdef FIXOPS
+    unsigned c = fix[s][2];
+#else
     unsigned c = (unsigned)vp_range(70 + s, 0, 1);
+#endif
     unsigned live = 0;
     for (int i = 0; i < NG; ++i) live += held[i] >= 0;
     bool threw = false;
